@@ -71,6 +71,8 @@ func program(name string) *progs.Prog {
 		return progs.TwoStages(0, 0, 0)
 	case "chain":
 		return progs.Chain(0)
+	case "samestage":
+		return progs.SameStage(0, 0, 0)
 	}
 	return progs.StoreMap(0, 0)
 }
@@ -323,8 +325,8 @@ func Run(ctx *core.Ctx) int {
 		return core.RunReplay(ctx, Eval)
 	}
 	kinds := []string{PRE, OVERLOAD, MID, POST}
-	maxFaults := 3                                          // the bound the property names; the retry loop counts attempts per job, so three on one job matter
-	progsList := []string{"storemap", "twostages", "chain"} // chain: the last stage is fed from cached outputs, not from the block stream
+	maxFaults := 3                                                       // the bound the property names; the retry loop counts attempts per job, so three on one job matter
+	progsList := []string{"storemap", "twostages", "chain", "samestage"} // chain: the last stage is fed from cached outputs, not from the block stream
 	if ctx.Thorough() {
 		maxFaults = 4
 	}
@@ -342,8 +344,8 @@ func Run(ctx *core.Ctx) int {
 							return false
 						}
 					}
-					if len(cur) == maxFaults {
-						return true
+					if len(cur) == maxFaults || (prog == "samestage" && len(cur) == maxFaults-1) {
+						return true // the retry logic does not depend on the program: one fault less on the fourth program
 					}
 					for j := from; j < nj; j++ {
 						att := 1
@@ -369,6 +371,9 @@ func Run(ctx *core.Ctx) int {
 				}
 				if prog == "chain" {
 					mods = []string{"src", "acc", "m"}
+				}
+				if prog == "samestage" { // two stores in one layer: the pipeline runs them concurrently and collects their errors
+					mods = []string{"sa", "sb", "m"}
 				}
 				for _, m := range mods {
 					from := uint64(1)
